@@ -13,14 +13,14 @@
 
 typedef struct { int ra, ca, rb, cb; } scfg_t;
 enum { K_INS, K_DEL, K_CLEAR, K_COPY, K_COPYROWS, K_COPYCOLS, K_COPYROWS_OPT, K_COPYCOLS_OPT, K_FILLED, K_ROUNDTRIP, K_REALLOC };
-typedef struct { int kind, src, i, j; int vec[4], vec2[4]; } sop_t;	/* src: 0 = A (dest B for binary ops), 1 = B */
+typedef struct { int kind, src, i, j; int vec[6], vec2[6]; } sop_t;	/* src: 0 = A (dest B for binary ops), 1 = B */
 static sop_t OPS[4096]; static int NOPS;
 static scfg_t CFG;
 static const char *KN[] = {"ins", "del", "clear", "copy", "copyrows", "copycols", "copyrows_opt", "copycols_opt", "copy_filled", "roundtrip", "realloc"};
 
 typedef struct {
 	of_mod2sparse *m[2];
-	unsigned char set[2][4][4];	/* model */
+	unsigned char set[2][6][6];	/* model */
 	int r[2], c[2];
 #ifdef VF_TRK
 	uint64_t mark; long bad0;
@@ -131,8 +131,8 @@ static void s_apply (void *wv, int op, int check)
 	sop_t *o = &OPS[op];
 	int s = o->src, d = 1 - s, i, j;
 	of_mod2sparse *S = w->m[s], *D = w->m[d];
-	UINT32 v[4], v2[4];
-	for (i = 0; i < 4; i++) { v[i] = (UINT32) o->vec[i]; v2[i] = (UINT32) o->vec2[i]; }
+	UINT32 v[6], v2[6];
+	for (i = 0; i < 6; i++) { v[i] = (UINT32) o->vec[i]; v2[i] = (UINT32) o->vec2[i]; }
 	switch (o->kind) {
 	case K_INS: {
 		of_mod2entry *e = of_mod2sparse_insert (S, (UINT32) o->i, (UINT32) o->j);
@@ -217,18 +217,18 @@ static void addop (int kind, int src, int i, int j, const int *vec, const int *v
 }
 static void enum_vec (int kind, int src, int len, int range)
 {
-	int v[4] = {0, 0, 0, 0}, total = 1, x, i;
+	int v[6] = {0, 0, 0, 0, 0, 0}, total = 1, x, i;
 	for (i = 0; i < len; i++) total *= range;
 	for (x = 0; x < total; x++) { int y = x; for (i = 0; i < len; i++) { v[i] = y % range; y /= range; } addop (kind, src, 0, 0, v, NULL); }
 }
-static void enum_incr (int *out, int *n, int len, int range)	/* all strictly increasing maps [0,len)->[0,range), flattened 4 per map */
+static void enum_incr (int *out, int *n, int len, int range)	/* all strictly increasing maps [0,len)->[0,range), flattened 6 per map */
 {
-	int v[4] = {0, 0, 0, 0}, i;
+	int v[6] = {0, 0, 0, 0, 0, 0}, i;
 	*n = 0;
 	if (len > range) return;
 	for (i = 0; i < len; i++) v[i] = i;
 	for (;;) {
-		memcpy (out + 4 * (*n), v, sizeof v); (*n)++;
+		memcpy (out + 6 * (*n), v, sizeof v); (*n)++;
 		for (i = len - 1; i >= 0 && v[i] == range - len + i; i--) ;
 		if (i < 0) break;
 		v[i]++;
@@ -247,14 +247,14 @@ static void build_ops (const scfg_t *c)
 		if (cs <= cd) { enum_vec (K_COPYROWS, s, rd, rs); enum_vec (K_COPYROWS_OPT, s, rd, rs); }
 		if (rs <= rd) { enum_vec (K_COPYCOLS, s, cd, cs); enum_vec (K_COPYCOLS_OPT, s, cd, cs); }
 		if (rs <= rd && cs <= cd) {
-			int rm[4 * 40], cm[4 * 40], nr, nc, a, b;
+			int rm[6 * 40], cm[6 * 40], nr, nc, a, b;
 			enum_incr (rm, &nr, rs, rd); enum_incr (cm, &nc, cs, cd);
-			for (a = 0; a < nr; a++) for (b = 0; b < nc; b++) addop (K_FILLED, s, 0, 0, rm + 4 * a, cm + 4 * b);
+			for (a = 0; a < nr; a++) for (b = 0; b < nc; b++) addop (K_FILLED, s, 0, 0, rm + 6 * a, cm + 6 * b);
 		}
 	}
 }
 
-static scfg_t CFGS[16]; static int NCFG; static int DEPTH[16]; static long CAP[16];
+static scfg_t CFGS[32]; static int NCFG; static int DEPTH[32]; static long CAP[32];
 static int st_states, st_trans, st_exec, st_merges, st_audits, st_dn, st_self;
 
 static void run_cfg (int ci)
@@ -304,7 +304,10 @@ int main (int argc, char **argv)
 	if (!thorough) {
 		addcfg (2, 2, 2, 2, 30, 300000); addcfg (2, 2, 2, 3, 30, 300000); addcfg (1, 3, 2, 3, 30, 300000); addcfg (2, 1, 2, 2, 30, 300000);
 		addcfg (2, 3, 3, 3, 5, 200000); addcfg (1, 2, 1, 2, 30, 100000); addcfg (3, 1, 3, 2, 30, 300000); addcfg (1, 4, 1, 4, 30, 300000);
+		/* one larger matrix next to a trivial one: every entry set of a 4x3 / 3x4 matrix (rows > cols and cols > rows) */
+		addcfg (4, 3, 1, 1, 30, 300000); addcfg (3, 4, 1, 1, 30, 300000);
 	} else {
+		addcfg (4, 3, 1, 1, 36, 3000000); addcfg (3, 4, 1, 1, 36, 3000000); addcfg (4, 4, 1, 1, 36, 3000000); addcfg (5, 3, 1, 1, 36, 3000000);
 		addcfg (2, 2, 2, 2, 36, 3000000); addcfg (2, 2, 2, 3, 36, 3000000); addcfg (1, 3, 2, 3, 36, 3000000); addcfg (2, 1, 2, 2, 36, 3000000);
 		addcfg (2, 3, 3, 3, 7, 1500000); addcfg (1, 2, 1, 2, 36, 100000); addcfg (3, 1, 3, 2, 36, 3000000); addcfg (1, 4, 1, 4, 36, 3000000);
 		addcfg (3, 3, 3, 3, 6, 1500000); addcfg (3, 4, 4, 4, 5, 1000000); addcfg (2, 3, 2, 3, 10, 2000000); addcfg (2, 4, 3, 4, 6, 1500000);
